@@ -106,7 +106,8 @@ fn search(unit: &str, tag: &str, tier: &str) -> Option<Value> {
         "c12_yacc" | "c12_yacc2" | "c12_yacc3" => c12::search_yacc(tier),
         "c10_decls" => if tag.starts_with("C12") { c12::search_yacc(tier) } else { c10::search(tag, tier).or_else(|| c10r::search(tier)) },
         "c11_decl" if tag.starts_with("C12") => c12::search_lex(tier),
-        "c08_reduce" | "c08_tree" => c08::search(tag, tier),
+        "c08_entry" if tag.starts_with("C07") || tag.starts_with("C04") => c07::search(tag, tier),
+        "c08_reduce" | "c08_tree" | "c08_entry" => c08::search(tag, tier),
         "c11_flags" if tag.starts_with("C12") => c12::search_lex(tier),
         "c11_decl" | "c11_lex" | "c09_lexer" | "c11_flags" => c11::search(tag, tier),
         "c15_cache" => c15::search_codegen(tier),
